@@ -1,34 +1,34 @@
 (* Model/Tar.v — transcription of tarfs/fs.go and tarfs/file.go.
-   archive/tar is trusted: Next() yields the headers in order, the entry reader yields exactly
-   the entry's bytes and Header.Size is their number.  bytes.Reader is modelled from its
+   archive/tar is trusted: Next() yields the headers in order, the aentry reader yields exactly
+   the aentry's bytes and Header.Size is their number.  bytes.Reader is modelled from its
    documentation (Read / ReadAt / Seek below).
 
    The model has a switch [legacy].  legacy = true is the code as it stands in /repo today;
    legacy = false (what the theorems are about) differs in the places marked PATCH:
      T1  fs.go Open : every handle gets its own reader position (today the copied File shares
-                      the *bytes.Reader of the stored File, so all handles of an entry, past and
+                      the *bytes.Reader of the stored File, so all handles of an aentry, past and
                       present, share one offset)
-     T2  fs.go New  : a directory entry registers its own (possibly empty) directory map, as
-                      zipfs does (today Readdir of an empty directory entry fails with ENOENT)
+     T2  fs.go New  : a directory aentry registers its own (possibly empty) directory map, as
+                      zipfs does (today Readdir of an empty directory aentry fails with ENOENT)
    Definitions only. *)
 From AF Require Import Lib.Bytes Lib.Path Lib.Ops Gen.Consts Model.ByteFile Model.Archive.
 Local Open Scope Z_scope.
 
 (* ---------------------------------------------------------------- fs.go New *)
-Definition tar_add (legacy : bool) (ix : index) (e : entry) : index :=
+Definition tar_add (legacy : bool) (ix : index) (e : aentry) : index :=
   let '(d, f) := splitpath (ename e) in
   let ix1 := idx_ensure d ix in
-  let ix2 := idx_put d f e ix1 in                          (* the last entry of a name wins *)
+  let ix2 := idx_put d f e ix1 in                          (* the last aentry of a name wins *)
   if negb legacy && eisdir e then idx_ensure (join2 d f) ix2 else ix2.      (* PATCH T2 *)
 
 (* the pseudo-root: Header{Name: "/", Typeflag: TypeDir}, no bytes *)
-Definition tar_root : entry := mkEntry s_slash true [].
+Definition tar_root : aentry := mkEntry s_slash true [].
 
 Definition tar_new (legacy : bool) (a : archive) : index :=
   idx_put s_slash [] tar_root (idx_ensure s_slash (fold_left (tar_add legacy) a [])).
 
 (* tar.Header.FileInfo(): Name = path.Base(name), for directories path.Base(path.Clean(name)) *)
-Definition tinfo (e : entry) : finfo :=
+Definition tinfo (e : aentry) : finfo :=
   mk_info (if eisdir e then path_base (clean (ename e)) else path_base (ename e)) (eisdir e) (esize e).
 
 (* ---------------------------------------------------------------- bytes.Reader over c at position i *)
@@ -48,7 +48,7 @@ Definition br_seek (c : bytes) (i off whence : Z) : Z * res :=
 (* ---------------------------------------------------------------- file.go File *)
 (* tfile = the header and bytes (nil after Close); tkey = which stored File this handle was
    copied from (only used by the legacy shared reader); tpos = the handle's own reader position *)
-Record th := mkTH { tfile : option entry; tkey : str * str; tclosed : bool; tpos : Z }.
+Record th := mkTH { tfile : option aentry; tkey : str * str; tclosed : bool; tpos : Z }.
 
 Definition tset_pos (h : th) (p : Z) : th := mkTH (tfile h) (tkey h) (tclosed h) p.
 
@@ -109,8 +109,8 @@ Definition t_name (h : th) : option str :=
 
 (* file.go:78-92 getDirectoryNames (sorted keys), 94-123 Readdir: entries in key order without
    the pseudo-root's own "" key *)
-Definition key_lt (a b : str * entry) : bool := bltb (fst a) (fst b).
-Definition t_readdir_entries (ix : index) (h : th) (count : Z) : list entry + res :=
+Definition key_lt (a b : str * aentry) : bool := bltb (fst a) (fst b).
+Definition t_readdir_entries (ix : index) (h : th) (count : Z) : list aentry + res :=
   if tclosed h then inr (RErr (E KClosed)) else
   match tfile h with
   | None => inr RPanic
